@@ -13,7 +13,11 @@
      consumers          receive from Events() whenever they like, or never;
      Close()            asks a subscription to shut down; the publisher removes
                         it from its table later (unsubscribe), between events;
-     Subscribe()        is served by the publisher between events.
+     Subscribe()        is served by the publisher between events;
+     shutdown           the parent closes its Events() channel; the publisher
+                        first picks up and distributes EVERYTHING still buffered
+                        there, and only then initiates its own shutdown, which
+                        asks every subscription to shut down.
 
    Definitions only.  PubLtsProps.v proves that this protocol implements the
    atomic fan-out of Pipeline.v. *)
@@ -42,10 +46,14 @@ Section PubLts.
     k_in : list E;                      (* parent.Events(): not yet picked up *)
     k_seen : list E;                    (* picked up so far *)
     k_cur : option (E * list nat);      (* being distributed, and the table entries not yet sent to *)
-    k_subs : list csub
+    k_subs : list csub;
+    k_pclosed : bool;                   (* the parent has closed its Events() channel *)
+    k_down : bool;                      (* publisher.run has left its main loop (ShutdownInitiated) *)
+    k_all : list E                      (* ghost: everything the parent ever published *)
   }.
 
-  Definition cinit : cpub := {| k_in := []; k_seen := []; k_cur := None; k_subs := [] |}.
+  Definition cinit : cpub :=
+    {| k_in := []; k_seen := []; k_cur := None; k_subs := []; k_pclosed := false; k_down := false; k_all := [] |}.
 
   Fixpoint upd (i : nat) (f : csub -> csub) (l : list csub) : list csub :=
     match l, i with
@@ -111,18 +119,30 @@ Section PubLts.
   | CClose (i : nat)       (* Subscription.Close() *)
   | CExit (i : nat)        (* subscription.run: case <-ShutdownRequest: return; close(outch) *)
   | CUnsub (i : nat)       (* publisher.run: case sub := <-s.unsubscribech *)
-  | CSubscribe (cap : nat). (* publisher.run: case resultch := <-s.subscribech *)
+  | CSubscribe (cap : nat)  (* publisher.run: case resultch := <-s.subscribech *)
+  | CParentClose            (* the parent closes its Events() channel (what is buffered stays receivable) *)
+  | CPubDown.               (* publisher.run: case evt, ok := <-parent.Events(): !ok -> ShutdownInitiated; every
+                               subscription is asked to shut down *)
 
   Definition mk (p : cpub) (cur : option (E * list nat)) (subs : list csub) : cpub :=
-    {| k_in := k_in p; k_seen := k_seen p; k_cur := cur; k_subs := subs |}.
+    {| k_in := k_in p; k_seen := k_seen p; k_cur := cur; k_subs := subs;
+       k_pclosed := k_pclosed p; k_down := k_down p; k_all := k_all p |}.
+
+  Definition ask_down (c : csub) : csub :=
+    match c_phase c with Open => set_phase Closing c | _ => c end.
 
   Definition cstep (p : cpub) (a : cact) : option cpub :=
     match a with
-    | CParent e => Some {| k_in := k_in p ++ [e]; k_seen := k_seen p; k_cur := k_cur p; k_subs := k_subs p |}
+    | CParent e =>
+        if k_pclosed p then None
+        else Some {| k_in := k_in p ++ [e]; k_seen := k_seen p; k_cur := k_cur p; k_subs := k_subs p;
+                     k_pclosed := false; k_down := k_down p; k_all := k_all p ++ [e] |}
     | CPick =>
         match k_cur p, k_in p with
-        | None, e :: r => Some {| k_in := r; k_seen := k_seen p ++ [e];
-                                  k_cur := Some (e, listed_from 0 (k_subs p)); k_subs := k_subs p |}
+        | None, e :: r => if k_down p then None else
+                          Some {| k_in := r; k_seen := k_seen p ++ [e];
+                                  k_cur := Some (e, listed_from 0 (k_subs p)); k_subs := k_subs p;
+                                  k_pclosed := k_pclosed p; k_down := false; k_all := k_all p |}
         | _, _ => None
         end
     | CSend i =>
@@ -195,10 +215,23 @@ Section PubLts.
         end
     | CSubscribe cap =>
         match k_cur p with
-        | None => Some (mk p None (k_subs p ++ [{| c_from := length (k_seen p); c_cap := cap; c_hand := None; c_queue := [];
+        | None => if k_down p then None else Some (mk p None (k_subs p ++ [{| c_from := length (k_seen p); c_cap := cap; c_hand := None; c_queue := [];
                                                    c_passed := []; c_drops := 0; c_phase := Open; c_listed := true;
                                                    c_sent := []; c_failed := 0 |}]))
         | Some _ => None
+        end
+    | CParentClose =>
+        if k_pclosed p then None
+        else Some {| k_in := k_in p; k_seen := k_seen p; k_cur := k_cur p; k_subs := k_subs p;
+                     k_pclosed := true; k_down := k_down p; k_all := k_all p |}
+    | CPubDown =>
+        (* a receive from a closed channel reports !ok only once its buffer is empty *)
+        match k_cur p, k_in p with
+        | None, [] => if k_pclosed p && negb (k_down p)
+                      then Some {| k_in := []; k_seen := k_seen p; k_cur := None; k_subs := map ask_down (k_subs p);
+                                   k_pclosed := true; k_down := true; k_all := k_all p |}
+                      else None
+        | _, _ => None
         end
     end.
 
@@ -212,6 +245,8 @@ End PubLts.
 Arguments c_from {E}. Arguments c_cap {E}. Arguments c_hand {E}. Arguments c_queue {E}. Arguments c_passed {E}.
 Arguments c_drops {E}. Arguments c_phase {E}. Arguments c_listed {E}. Arguments c_sent {E}. Arguments c_failed {E}.
 Arguments k_in {E}. Arguments k_seen {E}. Arguments k_cur {E}. Arguments k_subs {E}.
+Arguments k_pclosed {E}. Arguments k_down {E}. Arguments k_all {E}. Arguments ask_down {E}.
+Arguments CParentClose {E}. Arguments CPubDown {E}.
 Arguments cinit {E}. Arguments cstep {E}. Arguments crun {E}. Arguments upd {E}. Arguments listed_from {E}.
 Arguments place {E}. Arguments cpop {E}. Arguments set_hand {E}. Arguments set_phase {E}. Arguments set_failed {E}. Arguments unlist {E}.
 Arguments CParent {E}. Arguments CPick {E}. Arguments CSend {E}. Arguments CSendFail {E}. Arguments CDone {E}.
